@@ -13,6 +13,12 @@ fn main() {
         "C18" => rtcmon::engines::latch_enum::run(&args),
         "C15" => rtcmon::engines::codec_diff::run(&args),
         "C14" => rtcmon::engines::srtp_gate::run(&args),
+        "C04" | "C05" => rtcmon::engines::srtp_diff::run(&args),
+        "C03" => rtcmon::engines::dtls_rec::run(&args),
+        "C02" | "C11" => rtcmon::engines::dtls_rig::run(&args),
+        "C19" => rtcmon::engines::demux_bridge::run(&args),
+        "C16" => rtcmon::engines::stun_diff::run(&args),
+        "C06" => rtcmon::engines::ice_attack::run(&args),
         other => {
             eprintln!("unknown property/engine {other}");
             2
